@@ -136,6 +136,8 @@ type world struct {
 	ended    []bool
 	cur      int // index of the stream new consumers attach to
 	cons     map[int]*cons
+	joins    map[int]int // StartConsume calls per stream
+	trackers []*mediah.Tracker
 	nextCons int
 	seq      uint16
 	ts       uint32
@@ -149,6 +151,7 @@ func (w *world) newStream() int {
 	defer w.mu.Unlock()
 	w.streams = append(w.streams, s)
 	w.ended = append(w.ended, false)
+	w.trackers = append(w.trackers, mediah.NewTracker(s))
 	return len(w.streams) - 1
 }
 
@@ -166,10 +169,17 @@ func (w *world) attach(flv bool) {
 		c.ended = true
 	}
 	s := w.streams[w.cur]
+	// consumer ids are a per-stream sequence: predict it so that window filters know
+	// the consumer from its very first schedule point (verified below)
+	w.joins[w.cur]++
+	c.cid = media.CID(uint32(pt)<<30 | uint32(w.joins[w.cur]))
 	w.mu.Unlock()
 	cid := s.StartConsume(c.rec, pt, fmt.Sprint(id))
 	w.mu.Lock()
-	c.cid = cid
+	if cid != c.cid {
+		w.mu.Unlock()
+		panic(fmt.Sprintf("harness assumption broken: predicted consumer id %x, got %x", uint32(c.cid), uint32(cid)))
+	}
 	w.mu.Unlock()
 }
 
@@ -295,13 +305,19 @@ func genPlan(t *rapid.T, windows bool) *plan {
 		pl.Ops = append(pl.Ops, op{Op: "attach", FLV: rapid.Bool().Draw(t, "flv")})
 	}
 	if windows {
-		nw := rapid.IntRange(1, 2).Draw(t, "windows")
+		nAttach := 0
+		for _, o := range pl.Ops {
+			if o.Op == "attach" {
+				nAttach++
+			}
+		}
+		nw := rapid.IntRange(1, 3).Draw(t, "windows")
 		for i := 0; i < nw; i++ {
 			pt := rapid.SampledFrom([]string{
 				"consume.before-pop", "consume.before-pop", "cclose.flagged", "remove.loaded", "close.marked",
 				"join.snapshotted", "join.registered", "demux.before-pop", "flvmux.before-pop", "tsmux.before-pop",
 			}).Draw(t, "point")
-			w := window{Point: pt, Occ: rapid.IntRange(1, 4).Draw(t, "occ"), Who: rapid.IntRange(0, 3).Draw(t, "who")}
+			w := window{Point: pt, Occ: rapid.IntRange(1, 3).Draw(t, "occ"), Who: rapid.IntRange(0, nAttach-1).Draw(t, "who")}
 			switch pt {
 			case "consume.before-pop":
 				w.Do = rapid.SampledFrom([]string{"stop-it", "end:close", "end:unregist"}).Draw(t, "do")
@@ -336,7 +352,7 @@ func run(t evid.TB, pl *plan, label string) {
 		}
 		return true
 	})
-	w := &world{pl: pl, cons: map[int]*cons{}, cdc: esgen.H264, path: "/c03/live", seq: 100, ts: 1000}
+	w := &world{pl: pl, cons: map[int]*cons{}, joins: map[int]int{}, cdc: esgen.H264, path: "/c03/live", seq: 100, ts: 1000}
 	if pl.H265 {
 		w.cdc = esgen.H265
 	}
@@ -426,6 +442,12 @@ func run(t evid.TB, pl *plan, label string) {
 	}
 	hook := func(p string, o interface{}) {
 		// consumptions whose stream pointer is already cleared (exiting) cannot be attributed; they are past every window anyway
+		w.mu.Lock()
+		trs := append([]*mediah.Tracker(nil), w.trackers...)
+		w.mu.Unlock()
+		for _, tr := range trs {
+			tr.Observe(p, o)
+		}
 		if !mine(o) {
 			return
 		}
@@ -463,7 +485,30 @@ func run(t evid.TB, pl *plan, label string) {
 		}
 		return cm, append([]*media.Stream(nil), w.streams...), append([]bool(nil), w.ended...)
 	}
+	settle := func() {
+		// let the delivery goroutines catch up with the script (pacing only): otherwise the
+		// script ends the stream before they have run at all and no window is ever reached
+		cm, streams, ended := snapshot()
+		for si, s := range streams {
+			if ended[si] {
+				continue
+			}
+			var cids []media.CID
+			for _, c := range cm {
+				if c.stream == si && !c.stopped && !c.ended {
+					cids = append(cids, c.cid)
+				}
+			}
+			w.mu.Lock()
+			tr := w.trackers[si]
+			w.mu.Unlock()
+			if !tr.WaitIdle(s, cids, 500*time.Millisecond) {
+				evid.Class(label + ": pacing wait hit its bound: " + tr.Describe(s, cids))
+			}
+		}
+	}
 	stepCheck := func(after op) {
+		settle()
 		_, streams, _ := snapshot()
 		for si, s := range streams {
 			si, s := si, s
@@ -560,6 +605,9 @@ func run(t evid.TB, pl *plan, label string) {
 		evid.Violation(t, "registry-left", pl, "after the case media.Count() = (%d, %d)", sc, cc)
 	}
 	// classes
+	for _, wd := range pl.Windows {
+		evid.Class(label + ": directive generated at " + wd.Point)
+	}
 	if inWindow > 0 {
 		for _, f := range in.Fired {
 			evid.Class(label + ": window " + f[:strings.Index(f, "#")] + " -> " + f[strings.Index(f, ":")+1:])
